@@ -61,6 +61,10 @@ ALLOC_SIZED = {
     "alloc::string::String::with_capacity": 0, "alloc::string::String::reserve": 1,
     "alloc::vec::from_elem": 1, "std::collections::hash::map::HashMap::with_capacity": 0,
     "alloc::collections::vec_deque::VecDeque::with_capacity": 0,
+    # third-party decoders that pre-allocate a caller-supplied output size
+    "zstd::bulk::decompress": 1, "zstd::bulk::decompressor::Decompressor::decompress": 2, "zstd::bulk::Decompressor::decompress": 2,
+    "lz4_flex::block::decompress::decompress": 1, "lz4_flex::block::decompress": 1, "lz4_flex::decompress": 1,
+    "bytes::bytes_mut::BytesMut::zeroed": 0, "alloc::vec::Vec::resize_with": 1,
 }
 UNBOUNDED_DESER = {"bincode::deserialize_from", "bincode::config::Options::deserialize_from", "bincode::internal::deserialize_from",
                    "bincode::deserialize_from_custom"}
@@ -381,7 +385,7 @@ def len_derived(body):
     return flow.derived(body, src, calls="adapters")
 
 
-def bounded_by_remaining(site, body, arg_index):
+def bounded_by_remaining(site, body, arg_index, strict=True):
     """the size/offset argument is dominated by a comparison `arg <= len-derived` (or `len-derived >= arg`)"""
     c = site.call
     if arg_index >= len(c.args):
@@ -400,24 +404,105 @@ def bounded_by_remaining(site, body, arg_index):
         y_is_arg = yl in argvals or yr == aroot
         x_is_len = xl in lens
         y_is_len = yl in lens
-        if x_is_arg and y_is_len and op in ("Le", "Lt"):
-            return "bounded: %s %s remaining (guard bb%d)" % ("arg", op, gbb)
-        if y_is_arg and x_is_len and op in ("Ge", "Gt"):
-            return "bounded: remaining %s arg (guard bb%d)" % (op, gbb)
+        for is_arg, lenop, ops in ((x_is_arg and y_is_len, y, ("Le", "Lt")), (y_is_arg and x_is_len, x, ("Ge", "Gt"))):
+            if is_arg and op in ops:
+                if not strict:
+                    return "bounded: arg %s an input-length-derived quantity (guard bb%d)" % (op, gbb)
+                lc, k = len_call_of(body, lenop)
+                c = consumed_between(body, lc, site)
+                if lc is None:
+                    k, c = 0, 0
+                if k is None or c is None or k < c:
+                    continue
+                return "bounded: arg %s remaining - %d, %d consumed since (guard bb%d)" % (op, k, c, gbb)
     return None
 
 
+CONSUMERS = ("advance", "split_to", "split_off", "copy_to_slice", "copy_to_bytes", "truncate", "clear", "split", "take")
+
+
+def len_call_of(body, op):
+    """(len()/remaining() call, K) such that the operand equals len - K (single-def chain through `- const`, `/ const`, casts)"""
+    seen = 0
+    cur = op
+    k = 0
+    exact = True
+    while seen < 8:
+        seen += 1
+        r = flow.root(body, cur)
+        if r[0] == "call" and strip_generics(r[1].callee) in LEN_CALLS:
+            return r[1], (k if exact else None)
+        if r[0] == "rv" and r[1]["k"] == "binop":
+            if r[1]["op"] in ("Sub", "SubWithOverflow") and flow.const_of(r[1]["b"]) is not None:
+                k += flow.const_of(r[1]["b"])
+            else:
+                exact = False
+            cur = r[1]["a"]
+            continue
+        if r[0] == "rv" and r[1]["k"] == "cast":
+            cur = r[1]["op"]
+            continue
+        if r[0] == "rv" and r[1]["k"] == "use" and len(r) > 4:
+            # `.0` of a checked-arithmetic tuple
+            pl = r[1]["op"]["pl"]
+            cur = {"k": "copy", "pl": {"l": pl["l"], "p": []}}
+            continue
+        return None, None
+    return None, None
+
+
+CONST_READS = {"get_u8": 1, "get_i8": 1, "get_u16": 2, "get_u16_le": 2, "get_u32": 4, "get_u32_le": 4, "get_u64": 8, "get_u64_le": 8, "get_i64": 8, "get_u128": 16}
+
+
+def consumed_between(body, lencall, site):
+    """bytes certainly-bounded consumed from the measured buffer between the measurement and the site:
+    returns the constant total, or None if some consumer of unknown size can run in between"""
+    if lencall is None:
+        return 0
+    buf = place_identity(body, lencall.args[0])
+    total = 0
+    after = flow.reach_avoiding(body, [lencall.target] if lencall.target is not None else [], [])
+    for c in body.calls():
+        if c is site.call or c.bb == site.bb or c.target is None:
+            continue
+        n = strip_generics(c.callee).rsplit("::", 1)[-1]
+        if not (n in CONSUMERS or n.startswith("get_")):
+            continue
+        if not c.args or place_identity(body, c.args[0]) != buf:
+            continue
+        # can this consumer run after the measurement and before the site, without the measurement being taken again?
+        if c.bb in after and site.bb in flow.reach_avoiding(body, [c.target], [lencall.bb]):
+            if n in CONST_READS:
+                size = CONST_READS[n]
+            elif n == "advance" and len(c.args) > 1 and flow.const_of(c.args[1]) is not None:
+                size = flow.const_of(c.args[1])
+            else:
+                return None
+            # inside a loop the same consumer may run an unbounded number of times before the site
+            lp = [l for l in flow.loops(body) if c.bb in l]
+            if lp and lencall.bb not in lp[0]:
+                return None
+            total += size
+    return total
+
+
 def const_remaining_guard(site, body, need):
-    """a fixed-size read of `need` bytes is dominated by `len-derived >= need`-like comparison against a constant"""
+    """a fixed-size read of `need` bytes is dominated by a comparison `len - K >= G`; with C constant bytes consumed since the
+    measurement this proves remaining >= need iff G + K - C >= need"""
     lens = len_derived(body)
     for op, x, y, gbb in cmp_guards(body, site.bb):
         xv, yv = flow.const_of(x), flow.const_of(y)
-        if op_local(x) in lens and yv is not None:
-            if (op == "Ge" and yv >= need) or (op == "Gt" and yv >= need - 1):
-                return "guard: remaining %s %d (bb%d)" % (op, yv, gbb)
-        if op_local(y) in lens and xv is not None:
-            if (op == "Le" and xv >= need) or (op == "Lt" and xv >= need - 1):
-                return "guard: %d %s remaining (bb%d)" % (xv, op, gbb)
+        for lenop, cv, ops in ((x, yv, {"Ge": 0, "Gt": 1}), (y, xv, {"Le": 0, "Lt": 1})):
+            if op_local(lenop) in lens and cv is not None and op in ops:
+                g = cv + ops[op]
+                lc, k = len_call_of(body, lenop)
+                c = consumed_between(body, lc, site)
+                if lc is None:
+                    k, c = 0, 0
+                if k is None or c is None:
+                    continue
+                if g + k - c >= need:
+                    return "guard: remaining - %d %s %d, %d consumed since (bb%d)" % (k, op, cv, c, gbb)
     return None
 
 
@@ -458,7 +543,7 @@ def rule_alloc_size(site, body):
         return "alloc: size is a length"
     if r[0] == "const":
         return "alloc: constant size"
-    b = bounded_by_remaining(site, body, idx)
+    b = bounded_by_remaining(site, body, idx, strict=False)
     if b:
         return "alloc: " + b
     return None
